@@ -1,11 +1,11 @@
 """E4 helpers: parent maps, the fate of a value (result discipline), dominating guards."""
 from .ir import callee, children, peel, walk
 
-ERR_TYPES = ("std::io::Error", "savefile::SavefileError", "ring::error::Unspecified")
+ERR_TYPES = ("std::io::error::Error", "savefile::SavefileError", "ring::error::Unspecified")
 
 
 def is_err_result(t):
-    return isinstance(t, str) and t.startswith("std::result::Result<") and any(t[:-1].endswith(e) for e in ERR_TYPES)
+    return isinstance(t, str) and t.startswith("core::result::Result<") and any(t[:-1].endswith(e) for e in ERR_TYPES)
 
 
 def parent_map(body):
